@@ -351,6 +351,13 @@ class Hypergraph:
         """
         return len(self._edge)
 
+    def _new_edge_uid(self):
+        """Next automatic edge ID, skipping IDs that are already in use."""
+        uid = next(self._edge_uid)
+        while uid in self._edge:
+            uid = next(self._edge_uid)
+        return uid
+
     def add_node(self, node, **attr):
         """Add one node with optional attributes.
 
@@ -592,7 +599,7 @@ class Hypergraph:
             warn(f"uid {idx} already exists, cannot add edge {members}")
             return
 
-        uid = next(self._edge_uid) if idx is None else idx
+        uid = self._new_edge_uid() if idx is None else idx
 
         self._edge[uid] = set()
         for node in members:
@@ -762,11 +769,11 @@ class Hypergraph:
         e = first_edge
         while True:
             if format1:
-                members, idx, eattr = e, next(self._edge_uid), {}
+                members, idx, eattr = e, self._new_edge_uid(), {}
             elif format2:
                 members, idx, eattr = e[0], e[1], {}
             elif format3:
-                members, idx, eattr = e[0], next(self._edge_uid), e[1]
+                members, idx, eattr = e[0], self._new_edge_uid(), e[1]
             elif format4:
                 members, idx, eattr = e[0], e[1], e[2]
 
@@ -1352,7 +1359,7 @@ class Hypergraph:
                 elif rename == "tuple":
                     new_id = tuple(sorted(dup_ids))
                 elif rename == "new":
-                    new_id = next(self._edge_uid)
+                    new_id = self._new_edge_uid()
                 else:
                     raise XGIError("Invalid ID renaming scheme!")
 
